@@ -49,6 +49,12 @@ class PathFacts:
         return None
 
     def _stmt_effect(self, alt, blk, i, st):
+        if st.kind == "dead":
+            # the flag's storage ends: its binding is forgotten (keeps the number of distinct binding sets small)
+            l = st.j.get("l")
+            if l is not None and any(f[0] == "B" and f[1] == l for f in alt):
+                return self._bind(alt, l, None)
+            return alt
         if st.kind != "assign" or st.place is None or st.place.proj:
             return alt
         l = st.place.local
@@ -127,12 +133,27 @@ class PathFacts:
             inter &= a
         return frozenset([frozenset(inter)])
 
+    @staticmethod
+    def _normalise(alts):
+        """alternatives with the same flag bindings are merged (their path facts intersected): only the correlation between
+        a flag's value and the edges taken matters, so the number of alternatives is bounded by the number of distinct
+        binding sets of the flags that are live"""
+        groups = {}
+        for a in alts:
+            key = frozenset(f for f in a if f[0] == "B")
+            rest = frozenset(f for f in a if f[0] != "B")
+            if key in groups:
+                groups[key] = groups[key] & rest
+            else:
+                groups[key] = rest
+        return frozenset(k | r for k, r in groups.items())
+
     def _join(self, a, b):
         if a is None:
-            return b
+            return self._normalise(b)
         if b is None:
-            return a
-        u = a | b
+            return self._normalise(a)
+        u = self._normalise(a | b)
         if len(u) > MAX_ALTS:
             u = self._widen(u)
         return u
